@@ -284,6 +284,14 @@ def gen_tree(ctx, idx):
         files2 = {'library.yaml': (per['library.yaml'], [b, a]), a: (per[a], []), b: (per[b], [c]), c: (per[c], [])}
         root = os.path.join(vlib.WORK, 'c13_tree_%d_dirs2' % idx)
         variants.append({'op': 'load_tree', 'path': write_tree(root, files2, 'library.yaml', phys), 'files': files2, 'kind': kind})
+        # the library directory reached through a symbolic link while one include climbs out of it with '..'
+        phys3 = {'library.yaml': 'deep/lib/library.yaml', a: 'deep/a.yaml', b: 'deep/lib/b.yaml', c: 'deep/lib/sub/c.yaml'}
+        root = os.path.join(vlib.WORK, 'c13_tree_%d_link' % idx)
+        write_tree(root, files, 'library.yaml', phys3)
+        os.symlink(os.path.join(root, 'deep', 'lib'), os.path.join(root, 'link'))
+        with open(os.path.join(root, 'a.yaml'), 'w') as f_:
+            f_.write("groups:\n  'Zz(Q)':\n    'thermochem':\n      T_ref: 298.15 K\n      ND_H_ref: 1.0\n")      # a decoy where a textual '..' would land
+        variants.append({'op': 'load_tree', 'path': os.path.join(root, 'link', 'library.yaml'), 'files': files, 'kind': kind})
     return variants
 
 
